@@ -6,8 +6,9 @@ import random, json, os, re, subprocess, itertools, glob as pyglob
 from vlib import *
 from . import register
 
-def comp_cases(maxports, maxlen, maxlines, maxsplit):
-    cfg = "CONSTANTS MaxPorts = %d\n MaxLen = %d\n MaxLines = %d\n MaxSplit = %d\nSPECIFICATION Spec\nINVARIANTS C19_Cartesian C19_Split Export\n" % (maxports, maxlen, maxlines, maxsplit)
+def comp_cases(maxports, maxlen, maxlines, maxsplit, maxselports=2, maxsellen=3):
+    cfg = ("CONSTANTS MaxPorts = %d\n MaxLen = %d\n MaxLines = %d\n MaxSplit = %d\n MaxSelPorts = %d\n MaxSelLen = %d\nSPECIFICATION Spec\n"
+           "INVARIANTS C19_Cartesian C19_Split C19_Select Export\n" % (maxports, maxlen, maxlines, maxsplit, maxselports, maxsellen))
     r = run_tlc("Components", "c.cfg", cfgtext=cfg, workers=4, timeout=1200, heap="6g")
     cases = [json.loads(json.loads('"' + m.group(1) + '"')) for m in re.finditer(r'^"CASE (.*)"$', r.out, re.M)]
     return r, cases
@@ -48,7 +49,7 @@ def check_C19(tier):
     thorough = tier == "thorough"
     rng = random.Random(seed() * 59 + 19)
     build("comptest")
-    r, cases = comp_cases(4 if thorough else 3, 3 if thorough else 2, 9 if thorough else 7, 4 if thorough else 3)
+    r, cases = comp_cases(4 if thorough else 3, 3 if thorough else 2, 9 if thorough else 7, 4 if thorough else 3, 3 if thorough else 2, 3)
     if r.error or not cases:
         chk.undecided.append("Components.tla: %s" % (r.error or "no cases")[-300:]); return chk.finish()
     chk.add_tlc(r)
@@ -88,6 +89,12 @@ def check_C19(tier):
                 allitems = [os.path.basename(x) for s in streams.values() for x in s]
                 drop = [x for x in allitems if rng.random() < 0.3]
                 jobs.append(("selector", dict(op="selector", streams=streams, drop=drop), files, c, 2))
+        elif c["kind"] == "select":
+            # every predicate mask over np aligned streams of length n: the tuples TLC says are kept (c["keep"]) are the oracle
+            streams = {names[i]: ["in/%s%d.txt" % (names[i], k) for k in range(1, c["n"] + 1)] for i in range(c["np"])}
+            files = {p: "DATA %s\n" % p for s_ in streams.values() for p in s_}
+            drop = [os.path.basename(streams[names[i]][k]) for i in range(c["np"]) for k in range(c["n"]) if not c["mask"][i][k]]
+            jobs.append(("selector", dict(op="selector", streams=streams, drop=drop), files, c, 1 if sum(map(len, c["mask"])) % 2 else 2))
         else:
             lines = ["line %d of %d" % (i, c["lines"]) for i in range(1, c["lines"] + 1)]
             jobs.append(("split", dict(op="split", path="in/data.txt", n=c["n"]), {"in/data.txt": "".join(l + "\n" for l in lines)}, c, 2))
@@ -140,10 +147,14 @@ def check_C19(tier):
             streams = case["streams"]; ports = sorted(streams); drop = set(case["drop"])
             n = len(streams[ports[0]])
             want = [tuple(streams[p][i] for p in ports) for i in range(n) if all(os.path.basename(streams[p][i]) not in drop for p in ports)]
+            if c.get("kind") == "select":
+                want_tlc = [tuple(streams[p][k - 1] for p in ports) for k in c["keep"]]
+                if want_tlc != want:
+                    chk.undecided.append("selector case %s: the harness' expectation differs from Components.tla" % c); continue
             got = [tuple(t.get(p) for p in ports) for t in tuples]
             if got != want or res["result"].get("extra"):
                 chk.violation("IPSelectorSync forwarded %s, expected exactly the aligned tuples whose members all satisfy the predicate: %s" % (got[:4], want[:4]), replay)
-            if n >= 2: chk.nontrivial.add("selector:%s:%s" % (c["lens"], sorted(drop)))
+            if n >= 2: chk.nontrivial.add("selector:%s:%s" % (c.get("lens", (c.get("np"), c.get("n"))), sorted(drop)))
         elif kind == "splitmany":
             contents = [res["dir_files"].get(t.get("in")) for t in tuples]
             pos = 0
